@@ -288,8 +288,8 @@ func (g *G) elemOps(i int, t *ty.Ty) {
 	if g.want["sort"] {
 		less := fmt.Sprintf("deriveCompare_%d(a, b) < 0", i)
 		if isBoolUnder(env, t) {
-			less = "!a && b"
-		} else if isBasicUnder(env, t) {
+			less = "bool(!a && b)"
+		} else if isBasicUnder(env, t) && !strings.HasPrefix(env.Under(t).B, "complex") {
 			less = "a < b"
 		}
 		w("\nfunc Sort_%d(l []%s) []%s { return deriveSort_%d(l) }\n", i, gt, gt, i)
@@ -299,7 +299,7 @@ func (g *G) elemOps(i int, t *ty.Ty) {
 			g.ow.op("sort", tn, g.inst(l).Wire())
 		}
 	}
-	if (g.want["min"] || g.want["max"]) && !isBoolUnder(env, t) {
+	if g.want["min"] || g.want["max"] {
 		for _, mm := range []string{"min", "max"} {
 			if !g.want[mm] {
 				continue
@@ -654,10 +654,10 @@ func main() {
 	rng := rand.New(rand.NewSource(*seed))
 	env := gen.Lib()
 	b, n, p := ty.B, ty.N, ty.P
-	// element types: basics, named basics, comparable struct, pointers to structs, slices, a struct
+	// element types: basics (incl. bool and complex, which have no <), named basics (incl. a named bool), comparable struct, pointers to structs, slices, a struct
 	// with pointers, a recursive and an imported struct behind pointers
 	elems := []*ty.Ty{b("int"), b("int64"), b("uint8"), b("string"), b("float64"), b("bool"), n(0), n(1), n(2),
-		n(5), p(n(5)), p(n(6)), ty.Sl(b("int")), n(6), p(n(7)), p(n(17))}
+		n(5), p(n(5)), p(n(6)), ty.Sl(b("int")), n(6), p(n(7)), p(n(17)), b("complex128"), n(3)}
 	keys := []*ty.Ty{b("int"), b("string"), n(0), n(5), ty.Ar(2, b("int")), b("float64")}
 	results := []*ty.Ty{b("int"), b("string"), p(n(5)), ty.Sl(b("int")), n(5), b("bool"), b("float64"), n(1)}
 	cap, maxLen, nRandom := 6, 6, 4
